@@ -104,6 +104,9 @@ var c03Queries = []GetQuery{
 	{Target: "T1", Path: "/top"},
 	{Target: "T1", PrefixPath: "/cont", Path: "/leafA"},
 	{Target: "T1", PrefixPath: "/cont/list[name=a]", Path: "/val"},
+	{Target: "T1", PrefixPath: "/cont/leafA"},
+	{Target: "T1", PrefixPath: "/cont/list[name=a]/val"},
+	{Target: "T1", PrefixPath: "/cont/sub"},
 	{Target: "T1", Path: "/nothing"},
 	{Target: "T2"},
 	{Target: "T2", Path: "/cont/leafA"},
@@ -426,7 +429,15 @@ func c03Body(rc *RunCtx, sh Shard, rep *Report, hw *HistWorld, maxLen int) *Shar
 				}
 				// incidental ordering inside a request: every permutation of the operations and every single
 				// deviation of a map iteration order must give the same stored result
-				if evaluate && len(r.Ops) > 1 && depth <= c03OrderDepth(rc) {
+				// (a request with a delete is included even when it has one operation: which model path the handler
+				// picks for a non-leaf delete depends on the iteration order of the model's path map)
+				hasDelete := false
+				for _, o := range r.Ops {
+					if o.Kind == "delete" {
+						hasDelete = true
+					}
+				}
+				if evaluate && (len(r.Ops) > 1 && depth <= c03OrderDepth(rc) || hasDelete && depth <= 2) {
 					orderRuns += c03OrderRuns(rep, hw, n, r, hist, res)
 				}
 			}
@@ -485,7 +496,7 @@ func c03OrderRuns(rep *Report, hw *HistWorld, n *c03Node, r SetReq, hist []strin
 			}
 		}
 		for dev := 0; dev < len(sites) && dev < 120; dev++ {
-			for rot := 1; rot < sites[dev].Len && rot < 4; rot++ {
+			for rot := 1; rot < sites[dev].Len && (rot < 4 || sites[dev].Len <= 24 && strings.Contains(sites[dev].Func, "FindPathFromModel")); rot++ {
 				offs := make([]uint8, dev+1)
 				offs[dev] = uint8(rot)
 				w.Restore(n.snap)
